@@ -18,8 +18,14 @@ if ! (cd "$here/mc" && go build -tags "$tags" -overlay "$ovl/overlay.json" -o "$
   echo "HARNESS-ERROR: build failed" >&2; cat "$bin.err" >&2; rm -f "$bin.err"; exit 2
 fi
 rm -f "$bin.err"
+trc=0
+if [ "$id" = "C07" ] && [ "$mode" != "replay" ]; then
+  export VERIF_EXTRA_EVIDENCE="$ovl/transcripts.json"
+  "$here/scripts/transcripts.sh" "$VERIF_EXTRA_EVIDENCE"; trc=$?
+  if [ $trc -ge 2 ]; then exit 2; fi
+fi
 case "$mode" in
-  quick|thorough) "$bin" "$id" --tier "$mode"; rc=$? ;;
+  quick|thorough) "$bin" "$id" --tier "$mode"; rc=$?; if [ $rc -eq 0 ] && [ $trc -eq 1 ]; then rc=1; fi ;;
   replay) "$bin" "$id" --replay "$3"; rc=$? ;;
   *) echo "usage: check.sh Cnn quick|thorough|replay <file>" >&2; rc=2 ;;
 esac
